@@ -1,0 +1,33 @@
+//go:build verif
+
+package commands
+
+import (
+	"io"
+
+	"github.com/git-lfs/git-lfs/v3/config"
+	"github.com/git-lfs/git-lfs/v3/filepathfilter"
+	"github.com/git-lfs/git-lfs/v3/lfs"
+	"github.com/git-lfs/git-lfs/v3/tq"
+)
+
+// In-process entry points for the simulation harness (build tag verif only).
+
+// VerifSetConfig makes the package use the given configuration, as
+// setupRepository() would for the current directory.
+func VerifSetConfig(c *config.Configuration) {
+	cfg = c
+	apiClient = nil
+	tqManifest = make(map[string]tq.Manifest)
+}
+
+// VerifClean runs the one-shot clean filter body.
+func VerifClean(to io.Writer, from io.Reader, fileName string, fileSize int64) (*lfs.Pointer, error) {
+	return clean(lfs.NewGitFilter(cfg), to, from, fileName, fileSize)
+}
+
+// VerifSmudge runs the one-shot smudge filter body.
+func VerifSmudge(to io.Writer, from io.Reader, fileName string, skip bool) (int64, error) {
+	filter := filepathfilter.New(cfg.FetchIncludePaths(), cfg.FetchExcludePaths(), filepathfilter.GitIgnore)
+	return smudge(lfs.NewGitFilter(cfg), to, from, fileName, skip, filter)
+}
